@@ -574,6 +574,9 @@ func (g *Graph) ClassifyReturn(n *GNode) RetClass {
 			return RetNil
 		}
 		if v, ok := info.Uses[id].(*types.Var); ok {
+			if g.W.isSentinelError(v) {
+				return RetNonNil
+			}
 			if g.NonNilAt(n, v) {
 				return RetNonNil
 			}
@@ -841,4 +844,55 @@ func (g *Graph) assignsObj(x *GNode, obj types.Object) bool {
 		return true
 	})
 	return found
+}
+
+// isSentinelError: v is a package-level variable initialised with errors.New / fmt.Errorf and
+// never assigned afterwards in the analysed packages (e.g. ErrUnauthorized).
+func (w *World) isSentinelError(v *types.Var) bool {
+	if v.Pkg() == nil || v.Parent() != v.Pkg().Scope() {
+		return false
+	}
+	if r, ok := w.sentinelMemo[v]; ok {
+		return r
+	}
+	res := false
+	for _, p := range w.Pkgs {
+		if p.Types != v.Pkg() {
+			continue
+		}
+		for _, file := range p.Syntax {
+			for _, d := range file.Decls {
+				gd, ok := d.(*ast.GenDecl)
+				if !ok || gd.Tok != token.VAR {
+					continue
+				}
+				for _, sp := range gd.Specs {
+					vs := sp.(*ast.ValueSpec)
+					for i, nm := range vs.Names {
+						if p.TypesInfo.Defs[nm] == types.Object(v) && i < len(vs.Values) {
+							if call, ok := ast.Unparen(vs.Values[i]).(*ast.CallExpr); ok {
+								if sel, ok := call.Fun.(*ast.SelectorExpr); ok {
+									if fn, ok := p.TypesInfo.Uses[sel.Sel].(*types.Func); ok && freshErrorCalls[funcKey(fn)] {
+										res = true
+									}
+								}
+							}
+						}
+					}
+				}
+			}
+		}
+	}
+	if res {
+		for _, f := range w.allDeclared() {
+			if len(w.writesOf(f, v, true)) > 0 {
+				res = false
+			}
+		}
+	}
+	if w.sentinelMemo == nil {
+		w.sentinelMemo = map[*types.Var]bool{}
+	}
+	w.sentinelMemo[v] = res
+	return res
 }
